@@ -189,7 +189,10 @@ def random_cases(ctx, rng, n, every_module_path=True):
         placed = sc.fill_sources(rng, tree, externals=True)
         feats = [(p, st, tuple(ch)) for p, items in placed.items() for ch, st in items]
         dirs = sorted(p for p, v in tree.items() if v is None)
-        mps = dirs if every_module_path else ["proj"]
+        # a directory with a twin module file (x/ next to x.py) is not used as module_path: the twin file carries the
+        # same module name but lies outside the scanned sub-tree, so "the whole scan restricted to that sub-tree" is
+        # not well defined for it
+        mps = [d for d in dirs if d + ".py" not in tree] if every_module_path else ["proj"]
         for mp in (mps if rng.random() < 0.3 else [rng.choice(mps)]):
             cases.append({"tree": tree, "root": "proj", "mp": mp, "features": feats[:20], "module_objects": rng.random() < 0.3,
                           "subscan": True, "qualified_only": True})
@@ -299,8 +302,24 @@ def parent_relative(ctx, stream, n):
         ta, tb = dict(tree), dict(tree)
         for f in files:
             targets = rng.sample(inside, min(len(inside), rng.randint(1, 3)))
-            qa = "".join(f"import {t}\n" for t in targets)
-            qb = "".join(f"import {t[len(parent) + 1:]}\n" for t in targets)
+            qa = qb = ""
+            for t in targets:
+                rel = t[len(parent) + 1:]
+                form = rng.randrange(4)
+                if form == 1 and "." in rel:
+                    # from <package> import <sub module>: the package is spelled either way, the sub module is looked up
+                    (pa, na), (pb, nb) = t.rsplit(".", 1), rel.rsplit(".", 1)
+                    qa += f"from {pa} import {na}\n"
+                    qb += f"from {pb} import {nb}\n"
+                elif form == 2:
+                    qa += f"from {t} import thing\n"
+                    qb += f"from {rel} import thing\n"
+                elif form == 3:
+                    qa += f"import {t} as q\n"
+                    qb += f"import {rel} as q\n"
+                else:
+                    qa += f"import {t}\n"
+                    qb += f"import {rel}\n"
             ta[f], tb[f] = qa, qb
         cases.append((ta, tb, mp))
     res = pmap(_parent_relative_case, cases, ctx.jobs, chunk=10)
@@ -317,6 +336,78 @@ def parent_relative(ctx, stream, n):
             if len(ctx.broken) < 5:
                 ctx.broken.append({"kind": "correspondence-broken", "what": "correspondence sub-scan with parent-relative imports = PtaModel.generateGraph",
                                    "theorem": "Pta.C04.*", "files": tb, "module_path": mp, "impl": b, "model": parse_answer(an).get("M")})
+
+
+def _symlink_case(case):
+    """the same tree written with regular files and with some entries replaced by symbolic links (to a store outside
+    root_path, or to another file of the tree with the same content): module names come from the path that was walked"""
+    import os
+    import shutil
+
+    tree, mp, ext_links, dir_link, inner = case
+    with sc.write_project(tree) as pa:
+        plain = sc.real_scan(pa, "proj", mp)
+        line = sc.scan_line("scan", pa.path("proj"), tree, "proj", mp)
+    with sc.write_project(tree) as pb:
+        store = pb.path("_store")
+        os.makedirs(store)
+        if dir_link:
+            shutil.move(pb.path(dir_link), os.path.join(store, "d0"))
+            os.symlink(os.path.join(store, "d0"), pb.path(dir_link))
+        for i, f in enumerate(ext_links):
+            if dir_link and f.startswith(dir_link + "/"):
+                continue
+            shutil.move(pb.path(f), os.path.join(store, f"f{i}.py"))
+            os.symlink(os.path.join(store, f"f{i}.py"), pb.path(f))
+        if inner:
+            src, dst = inner
+            if not os.path.islink(pb.path(dst)) and not (dir_link and (dst.startswith(dir_link + "/") or src.startswith(dir_link + "/"))):
+                os.remove(pb.path(dst))
+                os.symlink(os.path.relpath(pb.path(src), os.path.dirname(pb.path(dst))), pb.path(dst))
+        linked = sc.real_scan(pb, "proj", mp)
+    return plain, linked, line
+
+
+def symlink_stream(ctx, stream, n):
+    rng = ctx.rng("symlinks")
+    cases = []
+    while len(cases) < n:
+        tree = sc.gen_tree(rng, extra_files=False)
+        sc.fill_sources(rng, tree, externals=False)
+        files = sorted(p for p in tree if p.endswith(".py"))
+        dirs = sorted(p for p, v in tree.items() if v is None and p != "proj")
+        if not files:
+            continue
+        ext_links = rng.sample(files, rng.randint(0, min(2, len(files))))
+        dir_link = rng.choice(dirs) if dirs and rng.random() < 0.4 else None
+        inner = None
+        if len(files) >= 2 and rng.random() < 0.5:
+            src, dst = rng.sample(files, 2)
+            tree[dst] = tree[src]
+            inner = (src, dst)
+        if not ext_links and not dir_link and not inner:
+            continue
+        mp = "proj" if rng.random() < 0.7 or not dirs else rng.choice(dirs)
+        if dir_link and (mp == dir_link or mp.startswith(dir_link + "/")):
+            mp = "proj"
+        cases.append((tree, mp, ext_links, dir_link, inner))
+    res = pmap(_symlink_case, cases, ctx.jobs, chunk=10)
+    ans = run_driver([r[2] for r in res])
+    for (tree, mp, ext_links, dir_link, inner), (plain, linked, line), an in zip(cases, res, ans):
+        stream.evaluations += 1
+        stream.count("linked:" + "+".join(k for k, v in (("files", ext_links), ("dir", dir_link), ("inner", inner)) if v))
+        stream.nontrivial.add(digest((sorted(tree.items()), mp, ext_links, dir_link, inner)))
+        if plain != linked:
+            ctx.violations.append({"kind": "property-violation",
+                                   "what": "modules of symbolically linked files/directories are not named by their dotted path in the scanned tree",
+                                   "files": tree, "module_path": mp, "linked_files": ext_links, "linked_directory": dir_link,
+                                   "link_inside_tree (target, link)": inner, "scan_regular_files": plain, "scan_with_links": linked})
+            if len(ctx.violations) >= 3:
+                return
+        elif plain != parse_answer(an).get("M"):
+            if len(ctx.broken) < 5:
+                ctx.broken.append({"kind": "correspondence-broken", "what": "correspondence scan = PtaModel.generateGraph (symlink stream)",
+                                   "theorem": "Pta.C04.*", "files": tree, "module_path": mp, "impl": plain, "model": parse_answer(an).get("M")})
 
 
 def coverage_note(ctx):
@@ -361,5 +452,9 @@ def run(ctx: Ctx, aspect="C02"):
     if aspect == "C04" and not ctx.violations:
         s = Stream(ctx, "sub-scans: imports spelled relative to module_path's parent vs fully qualified (repeated directory names)")
         parent_relative(ctx, s, ctx.size(500, 12000))
+        s.finish()
+    if aspect == "C04" and not ctx.violations:
+        s = Stream(ctx, "trees with symbolic links (files and directories, to outside root_path and inside the tree) vs the same tree with regular files")
+        symlink_stream(ctx, s, ctx.size(300, 6000))
         s.finish()
     return RULE
